@@ -6,22 +6,29 @@ ENTRY = dict(
         prop_file="Properties/C02.v",
         corr_files=["Corr/C02Corr.v"],
         theorems=["c02_keq_sound", "c02_family_exact", "c02_fixed_exact", "c02_move_exact", "c02_nonlocal_exact",
-                  "c02_u_from_thetavec", "c02_kak_dressing", "c02_kak_model", "c02_kak_exact", "c02_spec_sanity", "c02_refusal", "c02_missing_param_crashes",
+                  "c02_u_from_thetavec", "c02_kak_dressing", "c02_kak_model", "c02_kak_exact_partial", "c02_spec_sanity", "c02_refusal", "c02_missing_param_crashes",
                   "c02_registry", "c02_source_tables", "c02_dispatch_is_basis_of", "c02_dispatch_exact",
-                  "c02_dispatch_move_exact", "c02_registry_groups", "c02_angle_flow"],
+                  "c02_dispatch_move_exact", "c02_dispatch_kak", "c02_dispatch_refused", "c02_registry_groups", "c02_angle_flow"],
         allowed_axioms=["ClassicalDedekindReals.sig_not_dec", "ClassicalDedekindReals.sig_forall_dec",
                         "FunctionalExtensionality.functional_extensionality_dep"],
         facts=["registry_names", "cx_family_coeffs", "move_table_coeffs", "family_coeff_shape", "nonlocal_term_count", "registry_groups", "angle_flow"],
         harness="c02",
-        level_text="For the hand-written model of qpd/decompositions.py: the coefficient-weighted sum of Kronecker products of the "
-                   "one-qubit Pauli-transfer matrices (QPDMeasure = P0.P0 - P1.P1, Reset as a channel) equals the real 16x16 PTM of the "
-                   "instruction, as an identity of real matrices for ALL real angles (rxx ryy rzz crx cry crz cp), for the 12 fixed gates "
-                   "and Move, for the 58-term basis at every u in C^4, for _u_from_thetavec at all Weyl coordinates, and for the KAK path "
-                   "with arbitrary local 4x4 PTMs (dressing = PTM multiplicativity). Proof by reflection: boolean matrix equality over "
-                   "computable rings Q[c,s,r]/(s^2=1-c^2, 2r^2=1) (and variants) evaluated by vm_compute + a proved evaluation "
-                   "homomorphism into Coq's reals. Refusal rules and the registry of 20 names are theorems about the model / extracted "
-                   "facts. The model (operation sequences, rotation parameters, list sharing, coefficients) is compared with the "
-                   "implementation on >400 bases per run; an independent numpy PTM residual judges every disagreement.",
+        level_text="PROVED about the hand-written model (identities of real 16x16 Pauli-transfer matrices; QPDMeasure = P0.P0 - P1.P1, "
+                   "Reset as a channel): for each of the 19 registered gate names and EVERY real gate angle, the basis the modelled registry "
+                   "dispatcher returns sums to the PTM of the gate's own unitary written in the gate angle (c02_dispatch_exact; the angle "
+                   "arithmetic theta -> theta_prime, rotation/phase parameter = 2*theta_prime is part of the theorem); Move "
+                   "(c02_dispatch_move_exact); the 58-term basis for every u in C^4; _u_from_thetavec for all Weyl coordinates. "
+                   "KAK path: PARTIAL (c02_kak_exact_partial) - the modelled basis sums to kron(u3,u1).PTM(Uweyl(a,b,c)).kron(u2,u0) for "
+                   "arbitrary real 4x4 matrices u_k; that this is the instruction's channel additionally needs O-KAK, u_k = PTM(K_k), PTM "
+                   "functoriality and Uweyl = exp(i(aXX+bYY+cZZ)), none of which is proved (the composite is checked numerically per case). "
+                   "Proof technique: boolean matrix equality over computable rings Q[c,s,r]/(s^2=1-c^2, 2r^2=1) (and variants) by "
+                   "vm_compute + a proved evaluation homomorphism into Coq's reals. c02_spec_sanity is a set of boolean identities over those "
+                   "rings (not lifted to R). c02_refusal / c02_missing_param_crashes / c02_dispatch_kak / c02_dispatch_refused restate the "
+                   "model's branching on abstract flags (their value comes from the correspondence). Facts tie the registry groups, "
+                   "coefficient tables and the 11 angle steps of the source to the definitions the functions of the model USE. "
+                   "CORRESPONDENCE-TESTED only: model = code (operation sequences, list sharing, coefficients, refusals) on ~3000 bases per "
+                   "run; the one-qubit / two-qubit specification matrices vs Qiskit; an independent numpy PTM residual is ANDed into every "
+                   "case.",
         level_note=STD_NOTE + "Axioms: the three standard-library axioms behind Coq's classical real numbers "
                    "(sig_not_dec, sig_forall_dec, functional_extensionality_dep); nothing else.",
         assumptions=[
@@ -31,6 +38,10 @@ ENTRY = dict(
             "Common/Ptm.v: the 2x2 unitaries / Kraus operators of the one-qubit operations and the 4x4 target unitaries are "
             "specifications; they are compared with Qiskit's gate matrices at rational-circle angles on every run "
             "(QPDMeasure and Reset follow the property text)",
+            "KAK path (hypotheses of kind oracle/specification, NOT proved): PTM functoriality ptm2(U.V) = ptm2(U).ptm2(V), "
+            "ptm2(A x B) = kron(ptm1 A, ptm1 B), invariance under a global phase; the local matrices u_k of c02_kak_exact_partial are "
+            "the PTMs of K2r,K1r,K2l,K1l; Uweyl (defined as the product of the factors cos t + i sin t PxP) equals "
+            "exp(i(aXX+bYY+cZZ)); a failure of TwoQubitWeylDecomposition itself is not modelled",
             "O-KAK: TwoQubitWeylDecomposition(U) returns (a,b,c,K1l,K1r,K2l,K2r) with U proportional to "
             "(K1l x K1r) exp(i(aXX+bYY+cZZ)) (K2l x K2r); monitored numerically (1e-9) on every KAK case, and a case where it fails "
             "is treated as a model/implementation disagreement and judged by the PTM residual",
@@ -43,8 +54,10 @@ ENTRY = dict(
             "nan/inf angles are outside 'all real angles' and are not generated",
             "rotation parameters are symbolic (2*theta', +-pi/2, +-pi/4); that 2*theta' is what the code's angle arithmetic "
             "(theta = -theta/2, rot(-theta), theta_prime = -theta/2, PhaseGate(theta/2), CRZGate(np.pi/2) ...) produces is now a "
-            "theorem about Model/BasesDispatch.v (angles_ok in c02_dispatch_exact), whose angle expressions are regenerated from "
-            "the source (fact angle_flow); the harness additionally checks the observed float parameter exactly",
+            "theorem about Model/BasesDispatch.v (angles_ok and symbols_bound in c02_dispatch_exact); the 11 named angle steps that "
+            "the model's functions use are compared with the expressions extracted from the source (fact angle_flow, "
+            "c02_angle_flow: angle_flow_model is computed from those same named steps); the harness additionally checks the observed "
+            "float parameter exactly",
             "Model/BasesDispatch.v models the registry dict (fact registry_groups), _theta_from_instruction and the nested registry "
             "calls; c02_dispatch_exact states exactness against the gate's own unitary in the gate angle theta for all real theta; "
             "those unitaries (Uh_*) are compared with gate.to_matrix() at every generated angle (chk_unitary_h)",
